@@ -1189,3 +1189,44 @@ pub fn multi_error_cases(rng: &mut Rng, n: usize) -> Vec<GDoc> {
     }
     out
 }
+
+/// C05: a sub-fragment S shared by two fragments F1 { ...S } and F2 { ...S ...T } (both orders of
+/// F2's spreads), the conflicting field only in T, compared with the selection set's own field or
+/// with a sibling same-key field's sub-selection — exhaustive over the leaf fields involved and the
+/// orders of the spreads.
+pub fn merge_shared_subfragment_cases() -> Vec<GDoc> {
+    let leaf = |alias: Option<&str>, name: &str| GSel::Field { alias: alias.map(|x| x.to_string()), name: name.into(), args: vec![], dirs: vec![], sels: vec![] };
+    let sp = |n: &str| GSel::Spread { name: n.into(), dirs: vec![] };
+    let mut out = vec![];
+    for l1 in ["name", "nick"] {
+        for l2 in ["name", "nick"] {
+            for ls in 0..3 {
+                for f2_swapped in [false, true] {
+                    for op_swapped in [false, true] {
+                        for nested in [false, true] {
+                            let s_body = match ls { 0 => leaf(None, "id"), 1 => leaf(Some("x"), "name"), _ => leaf(Some("y"), "nick") };
+                            let f2 = if f2_swapped { vec![sp("T"), sp("S")] } else { vec![sp("S"), sp("T")] };
+                            let spreads = if op_swapped { vec![sp("F2"), sp("F1")] } else { vec![sp("F1"), sp("F2")] };
+                            let body: Vec<GSel> = if nested {
+                                vec![GSel::Field { alias: Some("p".into()), name: "self".into(), args: vec![], dirs: vec![], sels: vec![leaf(Some("x"), l1)] },
+                                     GSel::Field { alias: Some("p".into()), name: "self".into(), args: vec![], dirs: vec![], sels: spreads }]
+                            } else {
+                                let mut v = vec![leaf(Some("x"), l1)];
+                                v.extend(spreads);
+                                v
+                            };
+                            out.push(GDoc(vec![
+                                GDef::Op { kind: OpKind::SelSet, name: None, vars: vec![], dirs: vec![], sels: vec![GSel::Field { alias: None, name: "a".into(), args: vec![], dirs: vec![], sels: body }] },
+                                GDef::Frag { name: "F1".into(), tc: "A".into(), dirs: vec![], sels: vec![sp("S")] },
+                                GDef::Frag { name: "F2".into(), tc: "A".into(), dirs: vec![], sels: f2 },
+                                GDef::Frag { name: "S".into(), tc: "A".into(), dirs: vec![], sels: vec![s_body] },
+                                GDef::Frag { name: "T".into(), tc: "A".into(), dirs: vec![], sels: vec![leaf(Some("x"), l2)] },
+                            ]));
+                        }
+                    }
+                }
+            }
+        }
+    }
+    out
+}
